@@ -604,6 +604,26 @@ def _inline_in_block(stmts, helpers, caller, cls, rep: Report, failed: set):
         call = mode = None
         targets = set()
         val = getattr(st, "value", None) if isinstance(st, (ast.Expr, ast.Assign, ast.AnnAssign, ast.Return)) else None
+        # a helper call that is an argument of the statement's call, with nothing but plain names evaluated before it:
+        # hoisted into a local first (`f(h(x))` -> `t = h(x); f(t)`), then inlined as an assignment
+        outer = val.value if isinstance(val, ast.Await) else val
+        if isinstance(outer, ast.Call) and _simple_expr(outer.func):
+            for ai, a in enumerate(outer.args):
+                inner = a.value if isinstance(a, ast.Await) else a
+                if isinstance(inner, ast.Call) and _callee_name(inner, cls)[0] in helpers and helpers[_callee_name(inner, cls)[0]] is not caller \
+                        and all(_simple_expr(b) for b in outer.args[:ai]) and isinstance(helpers[_callee_name(inner, cls)[0]], ast.AsyncFunctionDef) == isinstance(a, ast.Await):
+                    tmp = f"arg__{_callee_name(inner, cls)[0].strip('_')}"
+                    if tmp in _local_names(caller):
+                        break
+                    pre_st = ast.copy_location(ast.Assign([ast.Name(tmp, ast.Store())], a, lineno=st.lineno), st)
+                    outer.args[ai] = ast.copy_location(ast.Name(tmp, ast.Load()), a)
+                    ast.fix_missing_locations(pre_st)
+                    nb, _ch = _inline_in_block([pre_st], helpers, caller, cls, rep, failed)
+                    out.extend(nb)
+                    changed = True
+                    break
+                if not _simple_expr(a):
+                    break
         awaited = isinstance(val, ast.Await)
         core = val.value if awaited else val
         if isinstance(core, ast.Call):
@@ -729,6 +749,7 @@ def normalize(modules) -> Report:
     inline_helpers(modules, known, rep)
     n2.expand_ifexp(modules, known, rep)
     n2.while_to_for(modules, known, rep)
+    n2.unroll_constant_loops(modules, known, rep)
     n2.propagate_fresh_locals(modules, known, rep)
     seen = set()
     rep.kept = [k for k in rep.kept if not (k in seen or seen.add(k))]
